@@ -212,6 +212,11 @@ def check_case(c: dict, workdir: str, ev: T.Optional[Evidence], sub: bool = Fals
                 objs = [i for i in e.ins if i.endswith('.o')]
                 if t['type'] == 'custom':
                     continue
+                # ... restricted to the target's own private directory: link_whole of a static library into a static
+                # library feeds the other target's objects into this archive, and a both_libraries() shared half may
+                # reuse the static half's objects; those are compiled (and listed) under the target that owns them.
+                pdir = '/' + os.path.basename(fns[0]) + '.p/'
+                objs = [o for o in objs if pdir in '/' + o]
                 ins: T.Set[str] = set()
                 params = None
                 comp = None
